@@ -14,7 +14,10 @@
         batched_results t fs contents = map (fun f => unbatched_result t f contents) fs.
 
     The matcher compares Go interface values, so a filter value whose Go type is not exactly the struct
-    field's type (int(10) for an int64 column) is never associated with the rows fetched for it.  The
+    field's type (int(10) for an int64 column) is never associated with the rows fetched for it; and
+    MakeHashable turns a nil slice (a NULL []byte column) and an empty []byte into the same string, so
+    nil / empty []byte filter values are associated with rows of the other kind (the caller can even
+    receive a row its own query does not select: corpus/C10/nil-vs-empty-bytes.json).  The
     repository's own MySQL-backed test TestBatchFilter pins that behaviour, so it is recorded as the known
     finding c10-batch-matcher-go-type rather than repaired; the theorem below is the full statement with
     the decidable hypothesis [filter_exactly_typed] that excludes exactly that class. *)
